@@ -15,10 +15,15 @@ partial def loop (h : IO.FS.Stream) (out : IO.FS.Stream) : IO Unit := do
   let line ← h.getLine
   if line.isEmpty then return ()
   let toks := splitLine (line.trimAscii.toString)
+  -- a leading `#<n>` is the harness's sequence number: it is echoed in front of the verdict, so that
+  -- the harness can tell a verdict that belongs to another case (an extra or a lost line)
+  let (tag, toks) := match toks with
+    | t :: rest => if t.startsWith "#" then (t ++ " ", rest) else ("", toks)
+    | [] => ("", [])
   let r := match toks with
     | [] => "bad empty"
     | p :: rest => Driver.dispatch p rest
-  out.putStrLn r
+  out.putStrLn (tag ++ r)
   loop h out
 
 def main : IO Unit := do
